@@ -71,6 +71,8 @@ pub struct SimState {
     pub t_hi: f64,
     /// running hash of everything that crossed a seam
     pub hash: u64,
+    /// running hash of the S1 and S2 crossings only (what the integration itself consumed)
+    pub hash12: u64,
     /// the log was cut off at REC_CAP records (oracles that need the full log must block)
     pub truncated: bool,
 }
@@ -104,6 +106,7 @@ impl SimIVP {
                 t_lo: f64::INFINITY,
                 t_hi: f64::NEG_INFINITY,
                 hash: 0xcbf29ce484222325,
+                hash12: 0xcbf29ce484222325,
                 ..Default::default()
             }),
         }
@@ -184,6 +187,16 @@ impl SimIVP {
             fnv(&mut h, v.to_bits());
         }
         st.hash = h;
+        let mut h2 = st.hash12;
+        fnv(&mut h2, 1);
+        fnv(&mut h2, x.to_bits());
+        for v in y {
+            fnv(&mut h2, v.to_bits());
+        }
+        for v in dydx.iter() {
+            fnv(&mut h2, v.to_bits());
+        }
+        st.hash12 = h2;
         if st.record && st.odes.len() >= REC_CAP {
             st.record = false;
             st.truncated = true;
@@ -239,6 +252,13 @@ impl IVP for SimIVP {
                 fnv(&mut h, v.to_bits());
             }
             st.hash = h;
+            let mut h2 = st.hash12;
+            fnv(&mut h2, 2);
+            fnv(&mut h2, x.to_bits());
+            for v in y {
+                fnv(&mut h2, v.to_bits());
+            }
+            st.hash12 = h2;
             if st.record {
                 let off = st.arena.len();
                 st.arena.extend_from_slice(y);
